@@ -114,3 +114,36 @@ Proof.
   clearbody st. destruct Fu as (_ & _ & _ & I3). exact (I3 _ _ _ _ _ E G F).
 Qed.
 Print Assumptions C10_outstanding_is_remembered.
+
+(* the two halves composed: in every reachable state, a request that arrives from client c (a fresh object on the heap,
+   as radudpget/the stream readers hand it over) while the original -- same Identifier, same authenticator, received
+   less than DuplicateInterval earlier -- is still outstanding at ANY server is not registered, and nothing leaves
+   towards any server: whatever is emitted is a stored reply to a client *)
+Theorem C10_in_flight_retransmission_not_forwarded : forall md5, (forall x, length (md5 x) = 16%nat) -> (forall x, wf_bytes (md5 x) = true) ->
+  forall rx cfg nclients nservers ops fs s i h' r c rq now, cfg_ok cfg nservers -> Forall (op_ok nclients nservers) ops ->
+  let st := fold_left (hstep md5 rx cfg) ops (init_state nclients nservers) in
+  slot_of st s i = Some h' -> get_rq st h' = Some r -> rq_from r = Some c ->
+  rq_rqid rq = rq_rqid r -> is_dup cfg rq r now = true ->
+  let '(st1, h) := alloc_rq st rq in
+  exists st' o, addclientrq md5 cfg fs st1 h c now = (false, st', o) /\
+    forall x, In x o -> exists c' b, x = OReply c' b.
+Proof.
+  intros md5 L W rx cfg nc ns ops fs s i h' r c rq now Hc Ho st E G F I D.
+  assert (Fu : Full nc ns st) by (apply (Full_history md5 L W rx cfg nc ns Hc); [exact Ho | apply Full_init]).
+  clearbody st. destruct Fu as ((S & _ & _) & _ & _ & I3).
+  pose proof (INV3_alloc_rq st rq S I3) as I3'.
+  pose proof (get_rq_alloc st rq) as Gh.
+  destruct (alloc_rq st rq) as [st1 h] eqn:A. cbn [fst snd] in *.
+  assert (E1 : slot_of st1 s i = Some h') by (unfold alloc_rq in A; injection A as <- _; exact E).
+  assert (G1 : get_rq st1 h' = Some r).
+  { unfold alloc_rq in A. injection A as <- _. unfold get_rq in *. cbn [st_heap].
+    destruct (nth_error (st_heap st) h') as [x|] eqn:N; [|discriminate].
+    rewrite nth_error_app1; [rewrite N; exact G | apply nth_error_Some; rewrite N; discriminate]. }
+  pose proof (I3' _ _ _ _ _ E1 G1 F) as En. rewrite <- I in En.
+  destruct (addclientrq_dup md5 cfg fs st1 h c now rq h' r Gh En G1 D) as (st' & o & Ea & Ho').
+  exists st', o. split; [exact Ea|].
+  intros x Hx. destruct (rq_replybuf r) as [b|]; [|subst o; destruct Hx].
+  destruct (rq_from r) as [c'|]; [|subst o; destruct Hx].
+  destruct Ho' as [-> | [_ ->]]; [|destruct Hx]. destruct Hx as [<- | []]. eauto.
+Qed.
+Print Assumptions C10_in_flight_retransmission_not_forwarded.
